@@ -387,12 +387,17 @@ def check_content_range(ctx, out, rule="C04.contentrange"):
     out.inst(rule, n, 2, note="content byte ranges reaching Block::new: the constant 0..0, or built under !Rc::ptr_eq(start comment, end comment)")
 
 
-def run(ctx, out, tier):
-    check_content_range(ctx, out)
+def check_census(ctx, out, rule="C04.census", within=None, floor=150, kinds=None):
+    """Every panic-capable site of the reachable bodies (of `within`, a set of body ids, when given) is discharged:
+    by a contract rule, or by a reviewed entry of spec/panic_sites.json."""
     table = json.load(open(os.path.join(SPEC, "panic_sites.json")))
-    loops_t = json.load(open(os.path.join(SPEC, "loops.json")))
     bodies = ctx.reachable_bodies()
     S = census.sites(ctx, bodies)
+    if within is not None:
+        S = [s for s in S if s["body"].id in within]
+    n_all = len(S)
+    if kinds is not None:
+        S = [s for s in S if kinds(s)]
     n_auto = n_tab = n_contract = 0
     groups = {}
     by_class = {}
@@ -462,15 +467,27 @@ def run(ctx, out, tier):
             if known and have > 0:
                 have -= 1
                 continue
-            out.viol("C04.census", "C04.census|%s|%s" % (ck, b.id if d is None else "+%d" % (len(ss) - d["count"])), ctx.where(b, s["span"]),
+            out.viol(rule, rule + "|%s|%s" % (ck, b.id if d is None else "+%d" % (len(ss) - d["count"])), ctx.where(b, s["span"]),
                      "panic-capable site without a discharge: %s `%s` in %s (%s) — if its operand can take the failing value for some file, diff or attribute text, blockwatch aborts (exit 101) instead of reporting; give the site a guard, make the operation total, or record the invariant that makes it safe in spec/panic_sites.json"
                      % (s["kind"], s["detail"], b.id, "no site of this shape is reviewed in this file" if d is None else "%d site(s) of this shape in this file, %d reviewed" % (len(ss), d["count"])))
     unused = sorted(set(table) - used)
-    if unused:
+    if unused and within is None:
         out.note("discharge entries that match no site any more (informational): %d" % len(unused))
-    out.inst("C04.census", n_auto + n_tab + n_contract, 150, samples,
+    out.inst(rule, n_auto + n_tab + n_contract, floor, samples,
              note="%d panic-capable sites: %d auto-safe additions, %d discharged by a std / dependency contract rule, %d tabled (file|kind|shape with counts) %s" % (len(S), n_auto, n_contract, n_tab, json.dumps(by_class, sort_keys=True)))
 
+    return S, n_auto, n_tab, by_class
+
+
+def run(ctx, out, tier):
+    check_content_range(ctx, out)
+    # ... which also rests on the comments reaching the pairing function in document order (Markdown merges its two
+    # comment kinds by position; shared with C03)
+    from rules.C03 import check_order as _check_order
+    shared.run_renamed(out, lambda o: _check_order(ctx, o), "C03", "C04")
+    loops_t = json.load(open(os.path.join(SPEC, "loops.json")))
+    bodies = ctx.reachable_bodies()
+    S, n_auto, n_tab, by_class = check_census(ctx, out)
     # ------------------------------------------------------------------ loops
     L = census.cycles(ctx, bodies)
     n_l = 0
